@@ -31,7 +31,7 @@ func NewCollector(cfg *ucfg.Config, opts ...ucfg.Option) *Collector {
 	if cfg == nil {
 		cfg = ucfg.New()
 	}
-	return &Collector{config: cfg, err: nil}
+	return &Collector{config: cfg, err: nil, opts: opts}
 }
 
 func (c *Collector) GetOptions() []ucfg.Option {
